@@ -429,7 +429,37 @@ RestLoop ==
                           C(ListV(<<IntV(0), IntV(1), IntV(4)>>))>>))>> >>
     : fx \in {1, 2}, k \in 0..3, k2 \in {0, 2}, m \in 0..3, mut \in BOOLEAN }
 
-Programs == CASE FAMILY = "calls" -> Calls
+-----------------------------------------------------------------------------
+(* idefs: bodies that interleave internal definitions and expressions (Lang.tla D9).  A variable defined with a  *)
+(* LITERAL, a way to assign it BEFORE a later definition reads it (directly / through an internal procedure /     *)
+(* through for-each over an internal procedure), whether the body also defines a procedure, and what the later   *)
+(* definition computes from the variable.                                                                         *)
+IdMut == {"set", "proc", "foreach"}
+IdLater == {"twice", "list", "plain", "two"}
+IdProc == {"none", "unused", "fmt"}
+IdefsBody(mu, la, pr) ==
+  LET addp == Def("add", Lam(<<"k">>, "", SetE("t", P("+", <<V("t"), V("k")>>))))
+      mut == CASE mu = "set"     -> <<SetE("t", P("+", <<V("t"), I(5)>>))>>
+               [] mu = "proc"    -> <<App(V("add"), <<I(5)>>), App(V("add"), <<I(7)>>)>>
+               [] mu = "foreach" -> <<P("for-each", <<V("add"), P("list", <<I(5), I(7)>>)>>)>>
+      later == CASE la = "twice" -> P("*", <<V("t"), I(2)>>)
+                 [] la = "list"  -> P("list", <<V("t")>>)
+                 [] la = "plain" -> V("t")
+                 [] la = "two"   -> P("+", <<V("t"), V("u")>>)
+      fmtp == Def("fmt", Lam(<<"z">>, "", P("list", <<C(SymV("v")), V("z")>>)))
+      res == IF pr = "fmt" THEN App(V("fmt"), <<V("d")>>) ELSE V("d")
+  IN Body2( <<Def("t", I(0)), Def("u", I(100))>>
+            \o (IF mu = "set" THEN << >> ELSE <<addp>>)
+            \o (IF pr = "none" THEN << >> ELSE <<fmtp>>)
+            \o mut
+            \o <<Def("d", later)>>,
+            P("list", <<res, V("t")>>) )
+Idefs == { << Pre, <<Def("run", Lam(<< >>, "", IdefsBody(mu, la, pr)))>>,
+              <<Emit1(App(V("run"), << >>)), Emit1(App(V("run"), << >>))>> >>
+           : mu \in IdMut, la \in IdLater, pr \in IdProc }
+
+Programs == CASE FAMILY = "idefs" -> Idefs
+              [] FAMILY = "calls" -> Calls
               [] FAMILY = "restloop" -> RestLoop
               [] FAMILY = "param" -> Param
               [] FAMILY = "reads" -> Reads
